@@ -517,10 +517,12 @@ pub fn is_own_name(name: &str, prefix: &str, ext: &str) -> bool {
             && segs[1..].iter().all(|s| s.len() == 2)
             && segs.iter().all(|s| s.bytes().all(|b| b.is_ascii_digit()))
     };
+    // widths are not part of the statement (the crate docs show 8 + 8, a maintainer may widen them):
+    // counter = digits, id = hex digits
     period_ok
-        && parts[1].len() == 8
+        && !parts[1].is_empty()
         && parts[1].bytes().all(|b| b.is_ascii_digit())
-        && parts[2].len() == 8
+        && !parts[2].is_empty()
         && parts[2].bytes().all(|b| b.is_ascii_hexdigit())
 }
 
